@@ -14,6 +14,13 @@ if r.returncode != 0:
     if r.returncode != 0:
         print('PATCH DOES NOT APPLY', r.stderr[-500:]); subprocess.run(['git', '-C', '/repo', 'reset', '-q', '--hard', 'HEAD']); sys.exit(3)
     subprocess.run(['git', '-C', '/repo', 'reset', '-q'])
+# the evidence files are rewritten by every run: keep those of the unchanged tree
+import shutil, tempfile
+_bak = tempfile.mkdtemp(prefix='yv_evid_')
+for pid in pids:
+    f = '/verif/evidence/%s.json' % pid
+    if os.path.exists(f):
+        shutil.copy(f, _bak)
 try:
     for pid in pids:
         p = subprocess.run(['./check', pid, '--tier', 'quick'], cwd='/verif', capture_output=True, text=True, timeout=3000)
@@ -21,3 +28,8 @@ try:
         print('%s rc=%d :: %s' % (pid, p.returncode, ' | '.join(l[:160] for l in lines[-3:])))
 finally:
     subprocess.run(['git', '-C', '/repo', 'reset', '-q', '--hard', 'HEAD'])
+    for pid in pids:
+        b = os.path.join(_bak, '%s.json' % pid)
+        if os.path.exists(b):
+            shutil.copy(b, '/verif/evidence/%s.json' % pid)
+    shutil.rmtree(_bak, ignore_errors=True)
